@@ -112,6 +112,7 @@ func StartProxy(cfg *Config, seeds []string) (*Host, error) {
 			core.WithRedisPasswd(cfg.Password),
 			core.WithRedisRequestTimeout(cfg.TimeoutMs),
 			core.WithRedisMsgMaxLength(cfg.MaxLen),
+			core.WithSlowlogSlowerThan(int64(cfg.SlowlogMs)),
 			core.WithRedisConnectTimeout(5000),
 		)...)
 		h.runDone <- err
